@@ -50,7 +50,7 @@ def _case(draw, ctx):
                                selfloops=False, io_outputs=True, pools=pools))
     gates = [x for x in spec["nodes"] if x[1] in S.ALL_GATES]
     nary = [x for x in gates if x[1] in S.NARY]
-    for _ in range(draw(st.integers(0, 3))):
+    for _ in range(draw(st.sampled_from([0, 1, 2, 3, 5, 7]))):
         if not nary or len(gates) < 2:
             break
         g = draw(st.sampled_from(nary))
@@ -83,9 +83,18 @@ def check(case, ctx):
     snap = refsim.snapshot(c)
     cyc = refsim.has_cycle(c)
     out = lib(cg.tx.acyclic_unroll, c)
-    if case.get("adv_names") and not out.ok and out.type == "ValueError":
-        # with names that look like generated names a genuine clash between a node and a generated
-        # name is possible; refusing with ValueError is then legitimate (the property does not speak
+    names = set(c.graph.nodes)
+    clash = False
+    for m in names:
+        if m.startswith("aux_in_") and m[len("aux_in_"):] in names:
+            clash = True
+        if len(m) > 3 and m[0] == "c" and "_" in m and m[1:m.index("_")].isdigit():
+            rest = m[m.index("_") + 1:]
+            if rest in names or (rest.startswith("aux_in_") and rest[len("aux_in_"):] in names):
+                clash = True
+    if case.get("adv_names") and clash and not out.ok and out.type == "ValueError":
+        # a node name equals a name the transform would generate from another node (c<i>_<node>,
+        # aux_in_<node>): refusing with ValueError is then legitimate (the property does not speak
         # about names) -- only a *returned* circuit is judged
         return {"nontrivial": False, "labels": ["refused_with_generated_looking_names"]}
     r = need(out, "acyclic_unroll", "acyclic_unroll(c)")
